@@ -260,6 +260,10 @@ impl<T: Payload> ThreadCtx<T> {
         if self.keep_one && ((op == Op::DropS && self.senders.len() <= 1) || (op == Op::DropR && self.receivers.len() <= 1)) {
             return None;
         }
+        // a handle that other threads use through a shared reference is neither dropped nor converted
+        if (matches!(op, Op::DropS | Op::ConvS) && self.senders.last().map_or(false, |h| h.is_borrowed())) || (matches!(op, Op::DropR | Op::ConvR) && self.receivers.last().map_or(false, |h| h.is_borrowed())) {
+            return None;
+        }
         if self.keep_one && ((matches!(op, Op::CloneS(_)) && self.senders.len() >= 6) || (matches!(op, Op::CloneR(_)) && self.receivers.len() >= 6)) {
             return None;
         }
@@ -946,6 +950,9 @@ impl<T: Payload> ThreadCtx<T> {
         if let Some(h) = self.stream_owner.take() {
             self.receivers.push(*h);
         }
+        // shared references are simply let go (not a handle event)
+        self.senders.retain(|h| !h.is_borrowed());
+        self.receivers.retain(|h| !h.is_borrowed());
         while !self.senders.is_empty() {
             self.exec(Op::DropS);
         }
